@@ -580,12 +580,19 @@ def operator_table(model):
             if isinstance(node, ast.Dict) and node.keys and all(isinstance(k, ast.Constant) and isinstance(k.value, str) for k in node.keys) \
                     and all(isinstance(v, ast.Attribute) and isinstance(v.value, ast.Name) and v.value.id == 'operator' for v in node.values):
                 return m, name, node
-    raise AnalysisError('operator table (lexeme -> operator.*) not found (anchor vanished)')
+    return None
 
 
 def _r5(model, res, c, g):
-    m, name, node = operator_table(model)
-    table = dict((k.value, v.attr) for k, v in zip(node.keys, node.values))
+    ot = operator_table(model)
+    if ot is None:
+        # no lexeme -> operator.<fn> literal: which Python operation a lexeme denotes is decided by R4, which runs every binary
+        # reduce action on (a, lexeme, b); here only the lexemes of the tokens remain to be checked
+        res.notes.append('C04.R5: no lexeme->operator table literal; the lexeme->operation mapping is decided by the runs of R4')
+        m, name, node, table = None, None, None, None
+    else:
+        m, name, node = ot
+        table = dict((k.value, v.attr) for k, v in zip(node.keys, node.values))
     lm = g.lexer_module
     n = 0
     for tok in BINARY + ['LPAREN', 'RPAREN']:
@@ -603,7 +610,7 @@ def _r5(model, res, c, g):
             res.violation('R5', 'lexer:t_%s:lexeme' % tok, lm.where(t.node),
                           'token %s matches %r (regex %r); the grammar and the operator table expect %r' % (tok, lex, t.regex, want),
                           func='t_' + tok)
-        if tok in ('LPAREN', 'RPAREN', 'AMP'):
+        if tok in ('LPAREN', 'RPAREN', 'AMP') or table is None:
             continue
         got = table.get(want)
         ok2 = got == OPERATOR_ORACLE[want]
@@ -612,8 +619,9 @@ def _r5(model, res, c, g):
             res.violation('R5', '%s:%s:%s' % (m.name, name, want), m.where(node),
                           'the operator table maps %r to operator.%s; the symbol means operator.%s' % (want, got, OPERATOR_ORACLE[want]))
     res.floor('operator tokens checked', n, 13)
-    extra = [k for k in table if k not in OPERATOR_ORACLE]
-    res.ob('R5', '%s:%s' % (m.name, name), 'no unexpected lexeme in the operator table', not extra, extra)
+    if table is not None:
+        extra = [k for k in table if k not in OPERATOR_ORACLE]
+        res.ob('R5', '%s:%s' % (m.name, name), 'no unexpected lexeme in the operator table', not extra, extra)
 
 
 def _r6(model, res, g):
